@@ -184,26 +184,28 @@ def worker(inst, tier):
     obs.append(o)
 
     # init: params passed in are what the state carries; starting step/eps arrive clipped, schedule row is row clamp(eps)
-    t0 = time.time()
-    try:
-        p0 = gs0.params[sup]
-        ti = jx.Traced(lambda p, k, e: g.init(jax.random.PRNGKey(3), params={sup: p}, starting_step=k, starting_eps=e),
-                       p0, np.int32(0), np.int32(0))
-        fi = ti.sym_inputs(it, "i")
+    from flax.core import FrozenDict
+    for pname, wrap in (("a dict", lambda d: d), ("a FrozenDict (e.g. graph_state.params of an earlier state)", lambda d: FrozenDict(d))):
+        t0 = time.time()
+        try:
+            p0 = gs0.params[sup]
+            ti = jx.Traced(lambda p, k, e, _w=wrap: g.init(jax.random.PRNGKey(3), params=_w({sup: p}), starting_step=k, starting_eps=e),
+                           p0, np.int32(0), np.int32(0))
+            fi = ti.sym_inputs(it, "i")
 
-        def goal_init(inp, out):
-            p_sym, k_sym, e_sym = inp
-            ce, ck = clampz(e_sym.item(), max_eps - 1), clampz(k_sym.item(), max_step - 1)
-            c = jx.tree_equal(alg, out.params[sup], p_sym)
-            return z3.And(out.eps.item() == ce, out.step.item() == ck, c if not isinstance(c, bool) else z3.BoolVal(c),
-                          *rows_goal(out.timings_eps, ce))
+            def goal_init(inp, out):
+                p_sym, k_sym, e_sym = inp
+                ce, ck = clampz(e_sym.item(), max_eps - 1), clampz(k_sym.item(), max_step - 1)
+                c = jx.tree_equal(alg, out.params[sup], p_sym)
+                return z3.And(out.eps.item() == ce, out.step.item() == ck, c if not isinstance(c, bool) else z3.BoolVal(c),
+                              *rows_goal(out.timings_eps, ce))
 
-        obs.append(cg.prove_with_replay("init: params override, clipped starting step/eps, schedule row of the clipped episode",
-                                        inst, it, ti, fi, [], goal_init, "init",
-                                        "Graph.init does not hand the given params / clipped starting indices / that episode's schedule to the state"))
-    except BaseException as e:  # noqa
-        import traceback
-        obs.append(Ob("init", "error", time.time() - t0, inst, detail=f"{type(e).__name__}: {e} {traceback.format_exc()[-800:]}"))
+            obs.append(cg.prove_with_replay(f"init: params override given as {pname}, clipped starting step/eps, schedule row of the clipped episode",
+                                            inst, it, ti, fi, [], goal_init, "init",
+                                            "Graph.init does not hand the given params / clipped starting indices / that episode's schedule to the state"))
+        except BaseException as e:  # noqa
+            import traceback
+            obs.append(Ob("init", "error", time.time() - t0, inst, detail=f"{type(e).__name__}: {e} {traceback.format_exc()[-800:]}"))
     # reachability twin: the state space is unconstrained, outputs depend on inputs
     o_run = tr_run.run(it, fl)
     v, m, s = smt.satisfiable([o_run.state[sup].x.item() != gsym.state[sup].x.item()], 30)
